@@ -69,9 +69,38 @@ CONC_IMPL["spec:evaluate_lazy"] = _conc_el
 CONC_IMPL["spec:apply"] = lambda f, args, kwargs: None if f.none else ("app", f.name, tuple(args),
                                                                        tuple(sorted(kwargs.items())))
 
+def _ref_evaluate(x):
+    """Reference for evaluate_lazy, from its docstring-level meaning: the same structure (same container types) with
+    every lazy node replaced by its value."""
+    from pipefunc.lazy import _LazyFunction
+    if isinstance(x, _LazyFunction):
+        return x.evaluate()
+    if isinstance(x, dict):
+        return {k: _ref_evaluate(v) for k, v in x.items()}
+    if isinstance(x, tuple):
+        return tuple(_ref_evaluate(v) for v in x)
+    if isinstance(x, list):
+        return [_ref_evaluate(v) for v in x]
+    if isinstance(x, set):
+        return {_ref_evaluate(v) for v in x}
+    return x
+
+
+def _shape_of(x):
+    if isinstance(x, dict):
+        return ("dict", tuple((k, _shape_of(v)) for k, v in x.items()))
+    if isinstance(x, (tuple, list)):
+        return (type(x).__name__, tuple(_shape_of(v) for v in x))
+    if isinstance(x, set):
+        return ("set", len(x))
+    return type(x).__name__
+
+
 evaluate_lazy = Contract(
     f"{F}::evaluate_lazy", params={"x": TObj}, returns=TObj, trusted=True, pure=True,
-    ensures=lambda S, a, r, post: ({"is-the-evaluated-structure": S.eq(r, _el(S, a.x))} if S.symbolic else {}),
+    ensures=lambda S, a, r, post: ({"is-the-evaluated-structure": S.eq(r, _el(S, a.x))} if S.symbolic else {
+        "same structure with lazies replaced by their values": r == _ref_evaluate(a.x)
+        and _shape_of(r) == _shape_of(_ref_evaluate(a.x))}),
     note="evaluating the arguments forces the upstream nodes (each under this same contract); assumed not to re-enter "
          "the node being evaluated - a node's arguments exist before the node, so the structure is acyclic",
 )
@@ -144,3 +173,29 @@ def gen(rng, tier):
         for _ in range(rng.randint(0, 2)):  # 0, 1 or 2 earlier evaluations
             node.evaluate()
         yield {"self": node}
+
+
+def el_gen(rng, tier):
+    """Nested structures of every container kind holding plain values and lazy nodes."""
+    from pipefunc.lazy import _LazyFunction
+    n = 300 if tier == "quick" else 3000
+
+    def node():
+        f = CountingFn(f"n{rng.randint(0, 9)}")
+        return _LazyFunction(f, (rng.randint(0, 3),), {})
+
+    def build(depth):
+        kind = rng.choice(("leaf", "lazy", "tuple", "list", "dict", "set") if depth < 3 else ("leaf", "lazy"))
+        if kind == "leaf":
+            return rng.choice([1, "s", None, 2.5])
+        if kind == "lazy":
+            return node()
+        if kind == "tuple":
+            return tuple(build(depth + 1) for _ in range(rng.randint(0, 3)))
+        if kind == "list":
+            return [build(depth + 1) for _ in range(rng.randint(0, 3))]
+        if kind == "dict":
+            return {f"k{j}": build(depth + 1) for j in range(rng.randint(0, 3))}
+        return {rng.choice([1, 2, "a", "b"]) for _ in range(rng.randint(0, 3))}
+    for _ in range(n):
+        yield {"x": build(0)}
